@@ -8,6 +8,11 @@
 //   {..} = iteration over the object: rank q, send list, receive list; entry = global index, local index, local
 //          attribute, local public flag of the local pair pointed to, and the remote attribute,
 //   aft  = isSynced() after the (collective) resize of the source and/or target sets, syn2/nb2/{..} after rebuild<ign2>().
+// Global index type: environment C04_GTYPE = 0 int (ids as they are, default) | 1 long (with a long-based attribute enum and chunk
+// size 3) | 2 unsigned long long | 3 bigunsignedint<55> | 4 bigunsignedint<64> | 5 bigunsignedint<100> | rot (per case
+// 1 + FNV-1a(line) % 5).  For types 1..5 the small global id of the case is mapped, order preserving, to (0x80+id)*2^(w-8)+id
+// (w = 63, 64, 55, 64, 100: the top bits / the most significant digit are in use) and mapped back (low byte) for printing, so
+// the observation does not depend on the type.
 // A case that does not return within C04_CASE_TIMEOUT seconds (default 30) makes the process print
 // "ERROR C04-HANG ..." to stderr and exit(86); vcheck.run_cases attributes that to the case.
 #include <config.h>
@@ -23,6 +28,7 @@
 #include <string>
 #include <vector>
 #include <unistd.h>
+#include <dune/common/bigunsignedint.hh>
 #include <dune/common/parallel/indexset.hh>
 #include <dune/common/parallel/plocalindex.hh>
 #include <dune/common/parallel/remoteindices.hh>
@@ -38,9 +44,19 @@ static void pmpi_sched_counters(unsigned long long *a, unsigned long long *b, un
 #endif
 
 enum Attr { a0, a1, a2, a3, a4, a5, a6, a7 };
-typedef Dune::ParallelLocalIndex<Attr> LI;
-typedef Dune::ParallelIndexSet<int, LI, 8> PIS;
-typedef Dune::RemoteIndices<PIS> RI;
+enum AttrL : long { l0, l1, l2, l3, l4, l5, l6, l7 };
+
+// order-preserving embedding of the small ids into the global index type
+template<class G> struct Enc;
+template<> struct Enc<int> { static int enc(int id) { return id; } static int dec(int v) { return v; } };
+template<> struct Enc<long> { static long enc(int id) { return ((long) (0x80 + id) << 55) + id; } static int dec(long v) { return (int) (v & 0xff); } };
+template<> struct Enc<unsigned long long> {
+  static unsigned long long enc(int id) { return ((unsigned long long) (0x80 + id) << 56) + (unsigned long long) id; }
+  static int dec(unsigned long long v) { return (int) (v & 0xff); } };
+template<int k> struct Enc<Dune::bigunsignedint<k> > {
+  typedef Dune::bigunsignedint<k> B;
+  static B enc(int id) { return (B(std::uintmax_t(0x80 + id)) << (k - 8)) + B(std::uintmax_t(id)); }
+  static int dec(const B& v) { return (int) (v.touint() & 0xffu); } };
 
 static int g_rank = 0;
 static volatile long g_case = 0;
@@ -90,50 +106,84 @@ static bool parse(const std::string& line, Case& c)
 }
 
 // fill an empty set (pairs added in reverse order: the set sorts them)
+template<class PIS>
 static void fill(PIS& s, const Set& c)
 {
   s.beginResize();
-  for (std::size_t i = c.size(); i-- > 0;) s.add(c[i].g, LI((std::size_t) c[i].li, (Attr) c[i].a, c[i].pub != 0));
+  for (std::size_t i = c.size(); i-- > 0;) s.add(Enc<typename PIS::GlobalIndex>::enc(c[i].g), typename PIS::LocalIndex((std::size_t) c[i].li, (typename PIS::LocalIndex::Attribute) c[i].a, c[i].pub != 0));
   s.endResize();
 }
 // one beginResize/endResize that turns the content `from` into the content `to`
+template<class PIS>
 static void resize_to(PIS& s, const Set& from, const Set& to)
 {
   auto has = [](const Set& v, const P4& x) { for (auto& y : v) if (y == x) return true; return false; };
   s.beginResize();
   for (auto it = s.begin(); it != s.end(); ++it) {
-    P4 x{it->global(), (int) it->local().local(), (int) it->local().attribute(), it->local().isPublic() ? 1 : 0};
+    P4 x{Enc<typename PIS::GlobalIndex>::dec(it->global()), (int) it->local().local(), (int) it->local().attribute(), it->local().isPublic() ? 1 : 0};
     if (!has(to, x)) s.markAsDeleted(it);
   }
-  for (std::size_t i = to.size(); i-- > 0;) if (!has(from, to[i])) s.add(to[i].g, LI((std::size_t) to[i].li, (Attr) to[i].a, to[i].pub != 0));
+  for (std::size_t i = to.size(); i-- > 0;) if (!has(from, to[i])) s.add(Enc<typename PIS::GlobalIndex>::enc(to[i].g), typename PIS::LocalIndex((std::size_t) to[i].li, (typename PIS::LocalIndex::Attribute) to[i].a, to[i].pub != 0));
   s.endResize();
 }
 
-template<class L>
+template<class G, class L>
 static void plist(std::ostream& os, const L& l)
 {
   bool first = true;
   for (auto it = l.begin(); it != l.end(); ++it) {
     const auto& p = it->localIndexPair();
-    os << (first ? "" : " ") << p.global() << "." << p.local().local() << "." << (int) p.local().attribute() << "."
+    os << (first ? "" : " ") << Enc<G>::dec(p.global()) << "." << p.local().local() << "." << (int) p.local().attribute() << "."
        << (p.local().isPublic() ? 1 : 0) << "." << (int) it->attribute();
     first = false;
   }
 }
+template<class RI>
 static void pmap(std::ostream& os, const RI& ri, const char* nb)
 {
   os << nb << "=" << ri.neighbours() << " {";
   bool first = true;
   for (auto it = ri.begin(); it != ri.end(); ++it) {
     os << (first ? "" : " ") << it->first << ":S[";
-    plist(os, *(it->second.first));
+    plist<typename RI::GlobalIndex>(os, *(it->second.first));
     os << "]R[";
-    plist(os, *(it->second.second));
+    plist<typename RI::GlobalIndex>(os, *(it->second.second));
     os << "]";
     first = false;
   }
   os << "}";
 }
+
+template<class G, class A, int N>
+static void run_case(std::ostream& os, const Case& c, int rank, MPI_Comm comm)
+{
+  typedef Dune::ParallelLocalIndex<A> LI;
+  typedef Dune::ParallelIndexSet<G, LI, N> PIS;
+  typedef Dune::RemoteIndices<PIS> RI;
+  PIS S, T;
+  fill(S, c.src[0][rank]);
+  if (c.two) fill(T, c.dst[0][rank]);
+  PIS& tgt = c.two ? T : S;
+  RI ri(S, tgt, comm, c.mode ? c.hints[rank] : std::vector<int>(), c.incself != 0);
+  os << "r" << rank << " pre=" << (ri.isSynced() ? 1 : 0);
+  pmpi_sched_reseed(c.seed);
+  if (c.ign) ri.template rebuild<true>(); else ri.template rebuild<false>();
+  os << " syn=" << (ri.isSynced() ? 1 : 0) << " ";
+  pmap(os, ri, "nb");
+  // with one index set the "target" set is the source set: a resize of either resizes that one object (once per bit)
+  if (c.resize & 1) resize_to(S, c.src[0][rank], c.src[1][rank]);
+  if (c.resize & 2) {
+    if (c.two) resize_to(T, c.dst[0][rank], c.dst[1][rank]);
+    else resize_to(tgt, (c.resize & 1) ? c.src[1][rank] : c.src[0][rank], c.src[1][rank]);
+  }
+  os << " aft=" << (ri.isSynced() ? 1 : 0);
+  if (c.ign2) ri.template rebuild<true>(); else ri.template rebuild<false>();
+  pmpi_sched_reseed(0);
+  os << " syn2=" << (ri.isSynced() ? 1 : 0) << " ";
+  pmap(os, ri, "nb2");
+}
+
+static unsigned fnv(const std::string& s) { unsigned h = 2166136261u; for (unsigned char ch : s) { h ^= ch; h *= 16777619u; } return h; }
 
 int main(int argc, char** argv)
 {
@@ -144,6 +194,8 @@ int main(int argc, char** argv)
   const int rank = g_rank;
   int tmo = std::getenv("C04_CASE_TIMEOUT") ? std::atoi(std::getenv("C04_CASE_TIMEOUT")) : 30;
   std::signal(SIGALRM, on_alarm);
+  const char* ge = std::getenv("C04_GTYPE");
+  int gtype_env = !ge ? 0 : (std::string(ge) == "rot" ? -1 : std::atoi(ge));
   std::vector<MPI_Comm> sub(np + 1, MPI_COMM_NULL);
   for (int P = 1; P <= np; ++P) MPI_Comm_split(MPI_COMM_WORLD, rank < P ? 0 : MPI_UNDEFINED, rank, &sub[P]);
   std::ifstream in(argv[1]);
@@ -156,28 +208,15 @@ int main(int argc, char** argv)
     if (ok && rank < c.P) {
       std::ostringstream os;
       alarm(tmo);
-      {
-        PIS S, T;
-        fill(S, c.src[0][rank]);
-        if (c.two) fill(T, c.dst[0][rank]);
-        PIS& tgt = c.two ? T : S;
-        RI ri(S, tgt, sub[c.P], c.mode ? c.hints[rank] : std::vector<int>(), c.incself != 0);
-        os << "r" << rank << " pre=" << (ri.isSynced() ? 1 : 0);
-        pmpi_sched_reseed(c.seed);
-        if (c.ign) ri.rebuild<true>(); else ri.rebuild<false>();
-        os << " syn=" << (ri.isSynced() ? 1 : 0) << " ";
-        pmap(os, ri, "nb");
-        // with one index set the "target" set is the source set: a resize of either resizes that one object (once per bit)
-        if (c.resize & 1) resize_to(S, c.src[0][rank], c.src[1][rank]);
-        if (c.resize & 2) {
-          if (c.two) resize_to(T, c.dst[0][rank], c.dst[1][rank]);
-          else resize_to(tgt, (c.resize & 1) ? c.src[1][rank] : c.src[0][rank], c.src[1][rank]);
-        }
-        os << " aft=" << (ri.isSynced() ? 1 : 0);
-        if (c.ign2) ri.rebuild<true>(); else ri.rebuild<false>();
-        pmpi_sched_reseed(0);
-        os << " syn2=" << (ri.isSynced() ? 1 : 0) << " ";
-        pmap(os, ri, "nb2");
+      int gt = gtype_env;
+      if (gt < 0) gt = 1 + (int) (fnv(line) % 5u);
+      switch (gt) {
+        case 1: run_case<long, AttrL, 3>(os, c, rank, sub[c.P]); break;
+        case 2: run_case<unsigned long long, Attr, 8>(os, c, rank, sub[c.P]); break;
+        case 3: run_case<Dune::bigunsignedint<55>, Attr, 8>(os, c, rank, sub[c.P]); break;
+        case 4: run_case<Dune::bigunsignedint<64>, Attr, 8>(os, c, rank, sub[c.P]); break;
+        case 5: run_case<Dune::bigunsignedint<100>, Attr, 8>(os, c, rank, sub[c.P]); break;
+        default: run_case<int, Attr, 8>(os, c, rank, sub[c.P]); break;
       }
       alarm(0);
       mine = os.str();
